@@ -113,16 +113,46 @@ def _allocated_outside(df: DataFlow, var: str, at: int, body: set[int], header: 
         elif d.kind == "assign" and isinstance(d.value, ast.Name):
             if _allocated_outside(df, d.value.id, d.node, body, header, depth + 1):
                 return True
+        elif d.kind == "assign" and isinstance(d.value, ast.Subscript):
+            # a view taken inside the loop (member = array[i]) of something that exists outside it
+            root = d.value
+            while isinstance(root, ast.Subscript):
+                root = root.value
+            if isinstance(root, ast.Name) and _allocated_outside(df, root.id, d.node, body, header, depth + 1):
+                return True
     return False
 
 
-def _check_scatter(ctx) -> int:
+def _alias_position_names(df: DataFlow, var: str, at: int, depth: int = 0) -> set[str]:
+    """Names used as index components in the chain of views `var = outer[...]` that define `var`."""
+    out: set[str] = set()
+    if depth > 4:
+        return out
+    for d in df.reaching(at, var):
+        if d.kind == "assign" and isinstance(d.value, ast.Subscript):
+            v = d.value
+            while isinstance(v, ast.Subscript):
+                out |= {x.id for x in ast.walk(v.slice) if isinstance(x, ast.Name)}
+                v = v.value
+            if isinstance(v, ast.Name):
+                out |= _alias_position_names(df, v.id, d.node, depth + 1)
+        elif d.kind == "assign" and isinstance(d.value, ast.Name):
+            out |= _alias_position_names(df, d.value.id, d.node, depth + 1)
+    return out
+
+
+def _check_scatter(ctx, modules=None, iters=None, floors=(8, 7), direct=False) -> int:
+    """`modules` restricts the scan, `iters` (generator name -> arity of the loop target, 1 = a single index variable)
+    replaces BLOCK_ITERS; used by C26 for the np.ndindex loop over orientations."""
     rule = "R-SCATTER"
     repo = ctx.repo
     n_loops = n_stores = 0
+    BLOCK_ITERS_ = iters if iters is not None else BLOCK_ITERS
     for f in repo.all_functions():
+        if modules is not None and f.module.name not in modules:
+            continue
         loops = [n for n in walk_no_nested(f.node) if isinstance(n, ast.For) and isinstance(n.iter, ast.Call)
-                 and last_attr(n.iter) in BLOCK_ITERS]
+                 and last_attr(n.iter) in BLOCK_ITERS_]
         if not loops:
             continue
         df = DataFlow(f.node)
@@ -130,10 +160,15 @@ def _check_scatter(ctx) -> int:
         for loop in loops:
             n_loops += 1
             gen = last_attr(loop.iter)
-            arity = BLOCK_ITERS[gen]
-            if not (isinstance(loop.target, (ast.Tuple, ast.List)) and len(loop.target.elts) == arity):
-                raise AnalysisError(f"{f.qualname}: loop over {gen}(...) does not unpack {arity} values")
-            idx_vars = [v for t in loop.target.elts[:2] for v in _names(t) if v != "_"]
+            arity = BLOCK_ITERS_[gen]
+            if arity == 1:
+                if not isinstance(loop.target, ast.Name):
+                    raise AnalysisError(f"{f.qualname}: loop over {gen}(...) does not bind a single index variable")
+                idx_vars = [loop.target.id]
+            else:
+                if not (isinstance(loop.target, (ast.Tuple, ast.List)) and len(loop.target.elts) == arity):
+                    raise AnalysisError(f"{f.qualname}: loop over {gen}(...) does not unpack {arity} values")
+                idx_vars = [v for t in loop.target.elts[:2] for v in _names(t) if v != "_"]
             header = df.cfg.node_of(loop).idx
             body = df.cfg.loop_body_nodes(header)
             stores = _stores_in(loop)
@@ -154,6 +189,17 @@ def _check_scatter(ctx) -> int:
                 n_stores += 1
                 dep = Deps(df).deps(node.idx, idx)
                 hit = sorted(v for v in idx_vars if (header, v) in dep.def_vars)
+                if direct:
+                    # the loop variable *is* the position along the leading axes: it has to be an index component
+                    # itself (array[i + (...)], array[i][...]); data that merely derives from it (a mask computed
+                    # for member i) selects within a member, not the member
+                    names_in_pos = {x.id for x in ast.walk(idx) if isinstance(x, ast.Name)}
+                    c_ = cont
+                    while isinstance(c_, ast.Subscript):
+                        names_in_pos |= {x.id for x in ast.walk(c_.slice) if isinstance(x, ast.Name)}
+                        c_ = c_.value
+                    names_in_pos |= _alias_position_names(df, var, node.idx)
+                    hit = sorted(v for v in idx_vars if v in names_in_pos)
                 base = f"{f.qualname}:{gen}:store into {var}"
                 used[base] = used.get(base, 0) + 1
                 construct = base if used[base] == 1 else f"{base}#{used[base]}"
@@ -165,8 +211,8 @@ def _check_scatter(ctx) -> int:
                           f"(index depends on {sorted(r for r in dep.roots() if r.startswith('self.') or r in f.params) or 'constants only'}): every block overwrites "
                           "the same position and the other positions keep their initial value",
                           key_detail="index-invariant")
-    ctx.require(n_loops >= 8, f"R-SCATTER found only {n_loops} block loops in the package")
-    ctx.require(n_stores >= 7, f"R-SCATTER found only {n_stores} scatter stores (expected >= 7)")
+    ctx.require(n_loops >= floors[0], f"R-SCATTER found only {n_loops} block loops (expected >= {floors[0]})")
+    ctx.require(n_stores >= floors[1], f"R-SCATTER found only {n_stores} scatter stores (expected >= {floors[1]})")
     return n_stores
 
 
